@@ -290,7 +290,7 @@ theorem C08_flag_bits_generated :
     [Gen.Attr.OPTIONAL, Gen.Attr.TRANSITIVE, Gen.Attr.PARTIAL, Gen.Attr.EXTENDED_LENGTH] = [128, 64, 32, 16] := by
   decide
 
-/-! ### the messages the code constructed before the repairs (fix_1 .. fix_11 of the W8 report): none of them walks.
+/-! ### the messages the code constructed before the repairs (fix_1 .. fix_14 of the W8 report): none of them walks.
     Literal octets as the unrepaired constructors returned them, so these stay true whatever happens to the models. -/
 
 /-- fix_2: `Update.construct({'attr': {1: 0}, 'nlri': ['10.0.0.0/8']}, addpath=True)` - no path identifier in front of `08 0a` -/
@@ -360,6 +360,10 @@ theorem KF_C08_flowspec6_six_octet_value :
 /-- fix_11: `{1: {'prefix': '2001:db8::/33', 'offset': 3}}` - five pattern octets where ceil(30/8) = 4 belong -/
 theorem KF_C08_flowspec6_prefix_offset :
     valid {} (marker ++ [0, 41, 2, 0, 0, 0, 18, 144, 14, 0, 14, 0, 2, 133, 0, 0, 8, 1, 33, 3, 32, 1, 13, 184, 0]) = false := by decide
+
+/-- fix_14: IPv4 flow specification `{1: '10.0.0.0/33'}` - length 33 and four address octets -/
+theorem KF_C08_flowspec4_prefix_length_33 :
+    valid {} (marker ++ [0, 39, 2, 0, 0, 0, 16, 144, 14, 0, 12, 0, 1, 133, 0, 0, 6, 1, 33, 10, 0, 0, 0]) = false := by decide
 
 /-! ### non-vacuity: the constructors do return messages, and those walk -/
 
@@ -433,3 +437,4 @@ end Yabgp
 #print axioms Yabgp.KF_C08_flowspec6_and_items
 #print axioms Yabgp.KF_C08_flowspec6_six_octet_value
 #print axioms Yabgp.KF_C08_flowspec6_prefix_offset
+#print axioms Yabgp.KF_C08_flowspec4_prefix_length_33
